@@ -1,4 +1,6 @@
 """annotation class importable by the child process of the C18 cross-process round trip"""
+import os
+
 import claripy
 
 
@@ -44,7 +46,9 @@ def battery(s, names):
         try:
             out.append([what, f()])
         except Exception as ex:  # noqa
-            out.append([what, "exc:" + type(ex).__name__])
+            import traceback
+            fr = traceback.extract_tb(ex.__traceback__)[-1]
+            out.append([what, "exc:%s@%s:%s" % (type(ex).__name__, os.path.basename(fr.filename), fr.name)])
     return out
 
 
